@@ -27,6 +27,11 @@ def process_level(res, tier):
         # runs longer than one synchrotron period (the record and the queue cover every step of the whole run)
         for outstep in ((0, 7) if vlib.wide(tier) else (7,)):
             cases.append((rf, "Ts", outstep, 1.0, 4e4, 40))
+        # run lengths that are not a whole number of steps (-T 0.4, 1.3, 0.26 at 16 steps per period: 6.4, 20.8, 4.16 -> 7, 21, 5 steps are executed): the modulation
+        # advances by one step time per step, whatever the last step is rounded up to
+        for nst in (6.4, 20.8, 4.16):
+            for outstep in (0, 3):
+                cases.append((rf, "Ts", outstep, 10.0, 1.5e5, nst))
     steps_per_ts = 16
     # whatever else the run is asked to do while it records the modulation (logging, saving, tracking, renormalising, a wake): one record per step all the same
     track = os.path.join(wd, "track.txt")
@@ -45,7 +50,7 @@ def process_level(res, tier):
         a = ["-s", 16, "-T", nsteps / steps_per_ts, "-n", outstep] + ([] if "--VacuumGap" in EXTRA[ex] else ["-G", 0]) + ["-f", fs, "--padding", 2, "--LinearRF", "true" if rf == "linear" else "false",
              "--RFPhaseModAmplitude", amp, "--RFPhaseModFrequency", fmod] + EXTRA[ex]
         a += ["-N", steps_per_ts] if per == "Ts" else ["--StepsPerRevolution", steps_per_ts * fs / frev, "-N", 1000]
-        r = pl.run(exe, a, wd, out="o_%s_%s_%d_%g_%d_%d.h5" % (rf, per, outstep, amp, nsteps, ex))
+        r = pl.run(exe, a, wd, out="o_%s_%s_%d_%g_%g_%d.h5" % (rf, per, outstep, amp, nsteps, ex))
         doc = pl.h5(r["h5"], maxv=20000) if r["rc"] == 0 else None
         for ext in ("", ".cfg", ".log"):
             try:
@@ -55,7 +60,7 @@ def process_level(res, tier):
         return c, r, doc
     for c, r, doc in pl.pmap(do, cases):
         rf, per, outstep, amp, fmod, nsteps, ex = c
-        case = "process rf=%s steps-per=%s outstep=%d amplitude=%gdeg f_mod=%gHz steps=%d%s" % (rf, per, outstep, amp, fmod, nsteps, (" with " + " ".join(str(x) for x in EXTRA[ex] if not str(x).startswith("/"))) if ex else "")
+        case = "process rf=%s steps-per=%s outstep=%d amplitude=%gdeg f_mod=%gHz steps=%g%s" % (rf, per, outstep, amp, fmod, nsteps, (" with " + " ".join(str(x) for x in EXTRA[ex] if not str(x).startswith("/"))) if ex else "")
         rp = dict(cmd=r["cmd"])
         if doc is None or "error" in doc:
             res.violate("C19/process/run-failed", case, "rc=%s %s" % (r["rc"], r["log"][-200:]), replay=rp)
@@ -63,8 +68,10 @@ def process_level(res, tier):
         rows = pl.rows(doc, "/RFKicks/data")
         res.eval(case, pl.chash(case, rows), trivial=False)
         key = "C19/process/%s/%s" % (rf, "StepsPerRevolution" if per == "rev" else "StepsPerTs")
-        if len(rows) != nsteps:
-            res.violate(key + "/record-count/outstep%s" % ("=0" if outstep == 0 else ">0"), case, "/RFKicks/data has %d rows for %d executed steps" % (len(rows), nsteps), replay=rp)
+        import struct
+        nexec = int(math.ceil(struct.unpack("f", struct.pack("f", nsteps / steps_per_ts))[0] * steps_per_ts - 1e-9))     # the program holds -T in single precision
+        if len(rows) != nexec:
+            res.violate(key + "/record-count/outstep%s" % ("=0" if outstep == 0 else ">0"), case, "/RFKicks/data has %d rows for %d executed steps" % (len(rows), nexec), replay=rp)
             continue
         dt = 1.0 / (fs * steps_per_ts)
         sync = 0.0
